@@ -88,7 +88,7 @@ def run_impl(cfg, events, ops, trace=False, payload_type=bytes, keymode="script"
     cfg = cfg or {}
     ws = websocket.WebSocket(fire_cont_frame=bool(cfg.get("fire")), skip_utf8_validation=bool(cfg.get("skip")))
     sock = simnet.SimSocket(events, tail=cfg.get("tail", "eof"), accepts=cfg.get("acc"),
-                            send_fail_after=cfg.get("fail"))
+                            send_fail_after=cfg.get("fail"), eagain=cfg.get("eagain"))
     if cfg.get("to") is not None:
         sock.timeout = cfg["to"] / 1000.0
     ws.sock = sock
@@ -151,6 +151,14 @@ def run_impl(cfg, events, ops, trace=False, payload_type=bytes, keymode="script"
                     p = payload_type(parse_bytes(":".join(a[3:])))
                     fr = websocket.ABNF.create_frame(p, int(a[2]), int(a[1]))
                     res = f"N:{ws.send_frame(fr)}"
+                elif a[0] in ("sendt", "pingt", "pongt"):
+                    # a str payload given by its code points (surrogates included: they cannot be encoded)
+                    text = "".join(chr(int(x)) for x in a[1].split(".")) if a[1] != "-" else ""
+                    if a[0] == "sendt":
+                        res = f"N:{ws.send(text)}"
+                    else:
+                        getattr(ws, a[0][:4])(text)
+                        res = "ok"
                 elif a[0] == "ping":
                     ws.ping(parse_bytes(":".join(a[1:])))
                     res = "ok"
